@@ -464,14 +464,20 @@ def gen_cases(chk):
     rng.shuffle(hang)
     keep = 10 if quick else 40
     hang_fixed = [([tok("brk", "Table1[Col]")], "Table1[Col]", "S1"),
-                  ([tok("fn", "SUM"), tok("brk", "[1]Sheet1!$A$1"), tok("close", ")")], "SUM([1]Sheet1!$A$1)", "S1")]
+                  ([tok("fn", "SUM"), tok("brk", "[1]Sheet1!$A$1"), tok("close", ")")], "SUM([1]Sheet1!$A$1)", "S1"),
+                  # nested brackets outside any function or parenthesis (C09-KF10: the comma met an empty stack)
+                  ([tok("brk", "Table1[[#This Row],[Col]]")], "Table1[[#This Row],[Col]]", "S1"),
+                  ([tok("brk", "Table1[[#This Row],[Col]]"), tok("op", "*"), tok("num", "2")],
+                   "Table1[[#This Row],[Col]]*2", "S1"),
+                  ([tok("num", "1"), tok("op", "+"), tok("brk", "Table1[[#This Row],[Col]]"), tok("post", "%")],
+                   "1+Table1[[#This Row],[Col]]%", "My Sheet")]
     hang = hang_fixed + hang[:keep]
     cases = [cell_case(t, f, rng if i >= n_tlc else None, own) for i, (t, f, own) in enumerate(rest)]
     hcases = [cell_case(t, f, None, own) for t, f, own in hang]
     for i, c in enumerate(cases + hcases):
         c["case"] = i
     chk.extra["cases"] = {"tlc_accepted_formulas": n_tlc, "random_formulas": len(formulas) - n_tlc,
-                          "bracket_formulas_generated": len(hang) - 2 + max(0, len([1 for f in formulas if has_brk(f[0])]) - keep),
+                          "bracket_formulas_generated": len(hang) - 5 + max(0, len([1 for f in formulas if has_brk(f[0])]) - keep),
                           "bracket_formulas_driven": len(hcases)}
     return cases, hcases
 
